@@ -131,6 +131,10 @@ func (l *lexer) nextToken(r rune, text string) (tok Token, _ bool) {
 		return tok, true
 	}
 
+	if r != scanner.Ident {
+		l.setError(fmt.Sprintf("unexpected character %q", text), tok.Pos)
+		return tok, false
+	}
 	tok.Type = Ident
 	return tok, true
 }
